@@ -10,6 +10,7 @@ and the property's own oracle on the files the real CLI leaves behind.
 from __future__ import annotations
 
 import ast
+import re
 import concurrent.futures as cf
 import contextlib
 import copy
@@ -27,7 +28,8 @@ from harness import core
 from harness.gen import c12mods
 from harness.impl import pyast
 
-MODULE = "CddVerif.Properties.C12"
+MODULE = "CddVerif.Properties.C12Iface"  # imports Properties.C12; the C12 theorems instantiated on the C02 interface model's emitters and parsers
+IFACE_THEOREMS = ["C12Iface." + t for t in "laws_name_kind laws_roundTrip C12_class_iface C12_created_iface C12_missing_iface truth_unchanged_cls_iface truth_unchanged_fn_iface sync_idempotent_fn_truth sync_idempotent_cls_truth hfix_of_canonical stateA_truth stateA_ok stateB_truth stateB_ok function_target_not_conformed_iface emitCongr_fails_for_views".split()]
 THEOREMS = [
     "C12.rewrite_frame", "C12.conform_frame", "C12.sync_frame", "C12.sync_frame_shared", "C12.syncAt_id",
     "C12.C12_partial_class", "C12.C12_partial_created", "C12.C12_partial_missing", "C12.truth_unchanged",
@@ -243,7 +245,10 @@ def wild_cases(rng, n):
 # structured stream: triples of target files
 # ======================================================================================================
 PARAMS = ["alpha", "beta", "lr", "epochs", "dataset_name", "n_items", "path_to", "seed", "momentum", "verbose_level", "tag", "ratio"]
-DOCS = ["the alpha thing", "dataset name", "learning rate used", "a thing", "some text here", "level of verbosity", "batch count here", "Random seed"]
+DOCS = ["the alpha thing", "dataset name", "learning rate used", "a thing", "some text here", "level of verbosity", "batch count here", "Random seed",
+        "keep 80% of the rows for training", "format like %s or %(name)s", "100% of it",  # per cent signs (argparse would %-format a help string; the interface must not)
+        # longer than the 100-column wrap width of the emitters
+        "an identifier that is forwarded unchanged to every one of the workers started by the scheduler when the run begins and once more at the very end"]
 HEAD_DOCS = ["Summary line", "Train the model", "Configuration of the run", "Acquire the data"]
 CLASS_NAMES = ["ConfigClass", "K", "Settings", "Config", "Run"]
 METHOD_PATHS = ["C.m", "Trainer.run", "Runner.train_step", "run_it", "main_fn", "Config.run", "Run.run_it"]
@@ -1120,6 +1125,44 @@ def doc_first_order(kind, text, path, names):
     return head + [n for n in names if n not in documented] + ([kw] if kw in documented else [])
 
 
+def stdlib_docs(kind, node):
+    """Parameter descriptions read with the stdlib only: `:cvar n:` / `:param n:` fields of the docstring (class / function), `help=` of add_argument (argparse);
+    normalised the way the property compares descriptions (whitespace collapsed, a default announcement and a terminal full stop dropped)."""
+    out = {}
+    if node is None:
+        return out
+
+    def norm(txt):
+        txt = " ".join(txt.split())
+        m = re.search(r"[.,;]?\s*\(?\b[Dd]efault", txt)
+        if m:
+            txt = txt[: m.start()]
+        return txt.rstrip(". ").strip()
+
+    if kind in ("class", "function"):
+        ds = ast.get_docstring(node, clean=True) or ""
+        cur = None
+        for line in ds.split("\n"):
+            m = re.match(r"\s*:(?:cvar|param|ivar|var)\s+(\w+):\s*(.*)$", line)
+            if m:
+                cur = m.group(1)
+                out[cur] = m.group(2)
+            elif re.match(r"\s*:(type|rtype|return|returns|raises)\b", line) or not line.strip():
+                cur = None
+            elif cur is not None:
+                out[cur] += " " + line.strip()
+    else:
+        for st in node.body:
+            call = st.value if isinstance(st, ast.Expr) else None
+            if isinstance(call, ast.Call) and isinstance(call.func, ast.Attribute) and call.func.attr == "add_argument" and call.args \
+                    and isinstance(call.args[0], ast.Constant) and isinstance(call.args[0].value, str):
+                kw = {k.arg: k.value for k in call.keywords}
+                h = kw.get("help")
+                if isinstance(h, ast.Constant) and isinstance(h.value, str):
+                    out[call.args[0].value.lstrip("-")] = h.value
+    return {k: norm(v) for k, v in out.items() if norm(v)}
+
+
 def written_node(text, path):
     """the definition sync wrote for a target: the named target, or (method targets) the stray top-level `def` it appended"""
     try:
@@ -1290,6 +1333,7 @@ def oracle_phase(chk, case, before, states, snaps):
     tshape = truth_shape(t, before[t], tpath)
     # the truth's interface read with the stdlib only: a defect of the truth's cdd parser must not cancel out on both sides
     t_iface = stdlib_iface(t, written_node(before[t], tpath)) if before[t] else []
+    t_docs = stdlib_docs(t, written_node(before[t], tpath)) if before[t] else {}
     _tn = written_node(before[t], tpath) if before[t] else None
     t_kwarg = _tn.args.kwarg.arg if isinstance(_tn, (ast.FunctionDef, ast.AsyncFunctionDef)) and _tn.args.kwarg is not None else None
 
@@ -1391,6 +1435,14 @@ def oracle_phase(chk, case, before, states, snaps):
                         fail(dict(sig0, clause="stdlib-interface", field="type", type_from=tt, type_to=wt or "missing", **tshape),
                              "%s target %s was written with %s: %s, the truth (%s) declares %s" % (kind, name, pn, wt, t, tt))
                         break
+        # (b'') descriptions of a WRITTEN target against the truth's, both read with the stdlib (the fields / help strings themselves)
+        if outcome in ("created", "appended", "rewritten", "method-appended-at-top-level") and t_docs:
+            w_docs = stdlib_docs(kind, written_node(after, path))
+            for pn, td in t_docs.items():
+                wd = w_docs.get(pn)
+                if wd is not None and wd != td:
+                    fail(dict(sig0, clause="description", pct="%" in td, long=len(td) > 90, gained=(wd[len(td):].strip()[:20] if wd.startswith(td) else None)), "%s target %s was written with the description %r for %s, the truth (%s) says %r" % (kind, name, wd, pn, t, td))
+                    break
         # (c) frame: everything but the named target(s) of this file is the same code
         if before[kind] is not None and after is not None:
             try:
@@ -1576,7 +1628,11 @@ def check_sync_cases(chk, cases, label):
 
 
 def run(chk: core.Check) -> int:
-    chk.lean(MODULE, THEOREMS)
+    chk.lean(MODULE, THEOREMS + IFACE_THEOREMS)
+    chk.trusted_base.append("Properties/C12Iface.lean: the C12 theorems with the abstract emitters/parsers of Model/Sync.lean instantiated by the class / function / argparse emitters and parsers of the C02 "
+                            "interface model (name and kind laws proved for every interface, the round-trip law on the C02 domain from C02_class/_function/_argparse; the congruence law emitCongr is "
+                            "proved FALSE for view equality and survives as one decidable instance `hfix`, needed only for idempotence with a class truth); the reverse adapter PyAst.Stmt -> Iface.Top "
+                            "is a parameter with a pointwise decidable hypothesis (readsBack), CPython's expression parser stays env.pyExpr")
     chk.trusted_base += [
         "model lean/CddVerif/Model/Sync.lean over the shared flat Python AST (PyAst: expressions as ast.unparse text): find_in_ast, annotate_ancestry's "
         "_location, RewriteAtQuery.generic_visit/visit_FunctionDef, cmp_ast, _conform_filename, ground_truth — tied by c12.find / c12.rewrite / c12.sync",
